@@ -180,6 +180,24 @@ def run_case(case):
         m0._evaluate(1)
         if [m0[n].tobytes() for n in m0.index] != before0:
             out.append(('no-equations-body', 'evaluation changes nothing', 'changed', 'a model without equations must have an empty evaluation body'))
+    # 2b. the symbol list is the caller's: any order of it must be honoured (converter called in that order, code inserted in that order)
+    if len(carriers) >= 2 or any(x.type.name == 'VERBATIM' for x in symbols):
+        orders = [list(reversed(symbols)), [x for x in symbols if x.type.name == 'VERBATIM'] + [x for x in symbols if x.type.name != 'VERBATIM']]
+        for order in orders:
+            calls = []
+
+            def logging_converter(x, calls=calls):
+                calls.append(x)
+                return marker_converter(x)
+            text2 = fsic.build_model_definition(order, converter=logging_converter)
+            want_calls = [x for x in order if x.type.name in ('ENDOGENOUS', 'VERBATIM') and x.equation is not None and x.code is not None]
+            if [tuple(x) for x in calls] != [tuple(x) for x in want_calls]:
+                out.append(('converter-call-order', [x.name for x in want_calls], [x.name for x in calls], 'converter is not called once per equation-carrying symbol in symbol order'))
+                break
+            marks = [ln.strip() for ln in text2.split('\n') if ln.strip().startswith('# MARK<')]
+            if marks != ['# MARK<%s>' % x.name for x in want_calls]:
+                out.append(('converter-insert-order', ['# MARK<%s>' % x.name for x in want_calls], marks, 'converter output is not inserted in symbol order'))
+                break
     # 3. option lattice x routes (default converter, typed)
     depth = [0, 0]
     for s in symbols:
